@@ -4,6 +4,9 @@ import SeqVerif.Model.MergeTotals
 
   * `proxyStart`  : `Ingestor.StartAsyncSearch`: per shard the replicas are tried in order, the first one that accepts
                     keeps the search; a shard none of whose replicas accepts fails the whole call (later shards are not asked)
+  * a shard configured with NO replica (a stores configuration no API call can create): `StartAsyncSearch` succeeds
+                    without asking anybody, `FetchAsyncSearchResult` dereferences a nil response and panics
+                    (`startShardTop`, `fetchShardTop`); the soundness theorem's `Accepted` excludes it (`acc < outs.length`)
   * `fetchShard`  : the inner loop of `FetchAsyncSearchResult`: a replica answering `NotFound` is passed over, any other
                     error ends the whole fetch with that error, the first answer is the shard's; a shard all of whose
                     replicas say `NotFound` is skipped
@@ -26,6 +29,9 @@ inductive ShardFetch where
   | resp (done : Bool) (q : QPR)
   | skipped
   | fail
+  /-- a shard configured with NO replica: the loop body never runs, `err` stays nil and `storeResp` nil - the code
+  then dereferences it (`storeResp.HistogramInterval`) -/
+  | nilResp
 deriving Repr, DecidableEq
 
 def fetchShard : List ROut → ShardFetch
@@ -35,26 +41,42 @@ def fetchShard : List ROut → ShardFetch
   | .otherErr :: _ => .fail
   | .ok d q :: _ => .resp d q
 
+/-- the inner loop for one shard as configured: an empty replica list is the nil-response case -/
+def fetchShardTop (outs : List ROut) : ShardFetch := if outs.isEmpty then .nilResp else fetchShard outs
+
 inductive PFetch where
   | ok (done : Bool) (q : QPR)
   | notFound
   | error
+  /-- nil pointer dereference (a shard without replicas) -/
+  | panic
 deriving Repr, DecidableEq
 
-/-- the shards that answered, in shard order; `none` = the fetch ended with an error -/
-def gather : List (List ROut) → Option (List (Bool × QPR))
-  | [] => some []
+inductive Gathered where
+  | answers (rs : List (Bool × QPR))
+  | failed
+  | panicked
+deriving Repr, DecidableEq
+
+/-- the shards that answered, in shard order (the loop stops at the first shard that fails or panics) -/
+def gather : List (List ROut) → Gathered
+  | [] => .answers []
   | s :: rest =>
-    match fetchShard s with
-    | .fail => none
+    match fetchShardTop s with
+    | .fail => .failed
+    | .nilResp => .panicked
     | .skipped => gather rest
-    | .resp d q => (gather rest).map ((d, q) :: ·)
+    | .resp d q =>
+      match gather rest with
+      | .answers rs => .answers ((d, q) :: rs)
+      | g => g
 
 def proxyFetch (desc : Bool) (size hi : Nat) (shards : List (List ROut)) : PFetch :=
   match gather shards with
-  | none => .error
-  | some [] => .notFound
-  | some rs => .ok (rs.all (·.1)) (mergeQPRs desc ⟨[], 0, none⟩ (rs.map (·.2)) size hi)
+  | .failed => .error
+  | .panicked => .panic
+  | .answers [] => .notFound
+  | .answers rs => .ok (rs.all (·.1)) (mergeQPRs desc ⟨[], 0, none⟩ (rs.map (·.2)) size hi)
 
 /-- `StartAsyncSearch`: per shard the accept/refuse outcome of each replica; result: which replicas were called, and
 whether the call succeeded -/
@@ -63,11 +85,14 @@ def startShard : List Bool → List Bool × Bool
   | true :: rest => (true :: rest.map (fun _ => false), true)
   | false :: rest => (true :: (startShard rest).1, (startShard rest).2)
 
+/-- one shard as configured: with no replica the loop body never runs and `err` stays nil - success, nobody asked -/
+def startShardTop (s : List Bool) : List Bool × Bool := if s.isEmpty then ([], true) else startShard s
+
 def proxyStart : List (List Bool) → List (List Bool) × Bool
   | [] => ([], true)
   | s :: rest =>
-    if (startShard s).2 then ((startShard s).1 :: (proxyStart rest).1, (proxyStart rest).2)
-    else ((startShard s).1 :: rest.map (fun r => r.map (fun _ => false)), false)
+    if (startShardTop s).2 then ((startShardTop s).1 :: (proxyStart rest).1, (proxyStart rest).2)
+    else ((startShardTop s).1 :: rest.map (fun r => r.map (fun _ => false)), false)
 
 /-! ## soundness of `done` -/
 
@@ -110,8 +135,17 @@ def Paired : List (List ROut) → List Nat → List (Bool × QPR) → Prop
   | s :: ss, a :: as, r :: rs => s[a]? = some (.ok r.1 r.2) ∧ Paired ss as rs
   | _, _, _ => False
 
+theorem fetchShardTop_accepted (outs : List ROut) (acc : Nat) (h : Accepted outs acc) :
+    fetchShardTop outs = fetchShard outs := by
+  unfold fetchShardTop
+  have : outs.isEmpty = false := by
+    cases outs with
+    | nil => exact absurd h.1 (by simp)
+    | cons _ _ => rfl
+  simp [this]
+
 theorem gather_accepted (ss : List (List ROut)) (as : List Nat) (ha : AllAccepted ss as) :
-    ∀ rs, gather ss = some rs → Paired ss as rs := by
+    ∀ rs, gather ss = .answers rs → Paired ss as rs := by
   induction ss generalizing as with
   | nil =>
     intro rs hrs
@@ -125,7 +159,7 @@ theorem gather_accepted (ss : List (List ROut)) (as : List Nat) (ha : AllAccepte
     | cons a as' =>
       have h0 : Accepted s a := ha.1
       have hf := fetchShard_accepted s a h0
-      simp only [gather] at hrs
+      simp only [gather, fetchShardTop_accepted s a h0] at hrs
       cases hsa : s[a]? with
       | none => exact absurd h0.1 (by have := List.getElem?_eq_none_iff.mp hsa; omega)
       | some o =>
@@ -135,11 +169,12 @@ theorem gather_accepted (ss : List (List ROut)) (as : List Nat) (ha : AllAccepte
           simp only at hf
           rw [hf] at hrs
           cases hgr : gather ss' with
-          | none => simp [hgr] at hrs
-          | some rs' =>
-            simp only [hgr, Option.map_some, Option.some.injEq] at hrs
+          | answers rs' =>
+            simp only [hgr, Gathered.answers.injEq] at hrs
             subst hrs
             exact ⟨by simpa using hsa, ih as' ha.2 rs' hgr⟩
+          | failed => simp [hgr] at hrs
+          | panicked => simp [hgr] at hrs
         | notFound => exact absurd hsa h0.2.2
         | unavailable => rw [hsa] at hf; simp only at hf; rw [hf] at hrs; simp at hrs
         | otherErr => rw [hsa] at hf; simp only at hf; rw [hf] at hrs; simp at hrs
@@ -153,8 +188,9 @@ theorem proxyFetch_sound (desc : Bool) (size hi : Nat) (shards : List (List ROut
       done = rs.all (·.1) ∧ q = mergeQPRs desc ⟨[], 0, none⟩ (rs.map (·.2)) size hi := by
   unfold proxyFetch at h
   cases hgr : gather shards with
-  | none => simp [hgr] at h
-  | some rs =>
+  | failed => simp [hgr] at h
+  | panicked => simp [hgr] at h
+  | answers rs =>
     have := gather_accepted shards accs hacc rs hgr
     cases rs with
     | nil => simp [hgr] at h
